@@ -172,6 +172,9 @@ func genAnyTyped(r *rng, depth int) string {
 		case 0:
 			return r.pick(numLits)
 		case 1:
+			if r.chance(1, 4) {
+				return r.pick([]string{"'é'", "'aé'", "'ßb'", "'中'", "'é中a'", "'\u00a0'"})
+			}
 			return r.pick(strLits)
 		case 2:
 			return r.pick([]string{"true()", "false()"})
@@ -228,6 +231,8 @@ func genC15(g *genCtx) {
 		"substring('12345', 1, 0 div 0)", "substring('12345', 2, number('x'))", "substring('12345', -1 div 0, 1 div 0)", "substring('12345', 0 div 0)",
 		"substring('12345', 1 div 0, 1)", "substring('x', -1 div 0)", "a[0 div 0]", "a[1 div 0]", "(a)[-1 div 0]", "round(0 div 0)", "round(1 div 0)", "floor(-1 div 0)",
 		"string-length(substring('abc', 0 div 0, 1))", "translate('abc', 'ab', '')", "translate('', '', 'x')", "concat('a', 0 div 0)", "matches('a', string(//a))", "replace('a', string(@k), 'x')",
+		"translate('abc', 'abc', 'é')", "translate('aé', 'éa', 'x')", "translate(string(.), 'ab', 'ß')", "substring('héllo', 2, 3)", "string-length('中文')", "contains('é', 'é')",
+		"substring-after('aéb', 'é')", "lower-case('ÀB')", "normalize-space(' é ')", "concat('é', 'ß')", "starts-with('éa', 'é')", "ends-with('aé', 'é')", "//*[. = 'é']",
 		"true() or $x", "a[true() = 1]", "a[round(1)]", "a[round(1.2) = 1]", "(a)[round(1)]", "boolean(round(0))", "string(round(2.5))", "round(2.5) + 1", "number(true())", "sum(true())"}
 	for _, e := range fixed {
 		for k := 0; k < 3; k++ {
@@ -429,9 +434,23 @@ func damaged(e string) [][2]string {
 			}
 			add("cut-after-op", e[:i+1])
 		case '*':
-			// '*' is an operator only after an operand followed by a space in our generators
+			// '*' is the multiply operator only directly after an operand; after an operator (word or
+			// symbol), '(', '[', ',' , '/', '@' or '::' it is a name test, and cutting after it leaves a valid step
 			if i > 0 && e[i-1] == ' ' && i+1 < len(e) && e[i+1] == ' ' {
-				add("cut-after-op", e[:i+1])
+				k := i - 1
+				for k >= 0 && e[k] == ' ' {
+					k--
+				}
+				prev := e[:k+1]
+				isOpWord := false
+				for _, w := range []string{"and", "or", "div", "mod"} {
+					if strings.HasSuffix(prev, w) && (len(prev) == len(w) || !isNameByte(prev[len(prev)-len(w)-1])) {
+						isOpWord = true
+					}
+				}
+				if k >= 0 && !isOpWord && !strings.ContainsRune("(/[,|+-=<>@:!*", rune(e[k])) {
+					add("cut-after-op", e[:i+1])
+				}
 			}
 		case '-':
 			if i > 0 && e[i-1] == ' ' && i+1 < len(e) && e[i+1] == ' ' {
